@@ -79,6 +79,9 @@ class C03(Prop):
                     # element types of the user's arrays (operand and / or map); a refusal is accepted
                     DTS = (("uint8", "int64"), ("int8", "int32"), ("uint64", "uint8"), ("float64", "int64"), ("uint8", "uint8"), ("int32", "float64"))
                     yield {"k": "tf", "kind": "list", "m": m, "ins": allp, "dt": list(DTS[(i // 11) % 6]), "mdt": (i // 11) % 3 == 0, "pkg": "py"}
+                if i % 13 == 0:
+                    yield {"k": "tf", "kind": "livemap", "m": m, "ins": allp[(i // 13) % 3::3],
+                           "how": ("uint8", "int32", "float64", "fortran", "step", "plain")[(i // 13) % 6], "pkg": "py"}
                 if i % 9 == 0:
                     # operand and map are one and the same object (squaring a map in place)
                     yield {"k": "tf", "kind": "selfmap", "m": m, "ins": m}
@@ -176,6 +179,8 @@ class C03(Prop):
     def execute(self, scn, be):
         k = scn["k"]
         if k == "tf":
+            if scn["kind"] == "livemap":
+                return self._livemap(scn, be)
             r_ = self._tf(scn, be)
             return [r_] if r_ is not None else []
         if k == "embed":
@@ -197,6 +202,39 @@ class C03(Prop):
                 rec["exc"] = _exc(e)
             return [rec]
         raise ValueError(k)
+
+    def _livemap(self, scn, be):
+        """the same map object is applied, changed in place (rotation, sign flip written into ps), and applied again; every
+        application is judged against the map as it is at that moment (read back from the object)"""
+        out = []
+        ins = scn["ins"]
+        n = len(ins[0]) - 1
+        try:
+            M = be.cmap(scn["m"])
+            how = scn["how"]
+            if how in ("uint8", "int32", "float64"):
+                M = be.retype(M, how, None)
+            elif how in ("fortran", "step"):
+                M = be.relayout(M, how)
+            for t in range(3):
+                rec = {"op": "transform", "kind": "list", "m": be.p_list(M), "ins": ins, "live": t, "how": how}
+                L = be.plist(ins)
+                try:
+                    L.transform_by(M)
+                except Exception:
+                    if how == "plain":
+                        raise
+                    return out               # an element type the library refuses
+                rec["outs"] = be.p_list(L)
+                rec["m1"] = be.p_list(M)
+                out.append(rec)
+                if t == 0:
+                    M.rotate_by(be.pauli([2] * n + [0]))
+                else:
+                    M.ps[0] = (M.ps[0] + 2) % 4
+        except Exception as e:
+            out.append({"op": "transform", "kind": "list", "m": scn["m"], "ins": ins, "exc": _exc(e)})
+        return out
 
     def _tf(self, scn, be):
         kind, m, ins = scn["kind"], scn["m"], scn["ins"]
